@@ -37,9 +37,9 @@ func hFirstLine(s string) string {
 func hNoClass(string) string { return "" }
 
 // HarnessC06 — template worlds: Call, Redefine and Convert must return.
-func HarnessC06(fam, nT, nV, convCode, form, sv int) {
+func HarnessC06(fam, nT, nV, convCode, form, sv, mode int) {
 	hSchedVector(sv)
-	w := hTemplate(fam, nT, nV, convCode, form, 0)
+	w := hTemplate(fam, nT, nV, convCode, form, mode&^1)
 	vnNote(w.String())
 	args, ok := w.hBuildAll()
 	if !ok {
